@@ -39,6 +39,17 @@ class SkipOp(Exception):
     pass
 
 
+
+def placeholder(labels, k):
+    """label of leg k inside a pipe label: its own label, or the documented placeholder '?k' (prefixed with further '?' until
+    the resulting single-leg pipe label does not clash with an existing label)"""
+    if labels[k] is not None:
+        return labels[k]
+    ph = '?%d' % k
+    while '(' + ph + ')' in labels:
+        ph = '?' + ph
+    return ph
+
 def conj_label(lbl):
     """Documented label conjugation: 'a'->'a*', 'a*'->'a', '(a.(b*.c))' -> '(a*.(b.c*))'."""
     if lbl is None:
@@ -787,7 +798,7 @@ class Interp:
             eff_q.append(cq)
             refs.append(D.ref_pipe([a.arr.legs[x] for x in g], cq, self.mod))
         exp, final = D.combine_dense(a.dense, groups, eff_new_axes, [rf['perm'] for rf in refs])
-        lab = [(l if l is not None else '?%d' % k) for k, l in enumerate(a.labels)]
+        lab = [placeholder(a.labels, k) for k in range(len(a.labels))]
         labels, legq, legc = [], [], []
         for g in final:
             hit = [k for k, gg in enumerate(groups) if gg == g]
@@ -926,7 +937,7 @@ class Interp:
             rf = D.ref_pipe([a.arr.legs[k]], a.arr.legs[k].qconj, self.mod)
             exp = np.take(exp, rf['perm'], axis=k)
             legq[k] = a.legq[k][rf['perm']]
-            labels[k] = '(' + (a.labels[k] if a.labels[k] is not None else '?%d' % k) + ')'
+            labels[k] = '(' + placeholder(a.labels, k) + ')'
         ent = Ent(res, exp, labels, a.qtotal, legq, a.legc, a.exact, self.new_name())
         ent.multi = a.multi
         return [self.add(ent)]
@@ -1469,16 +1480,17 @@ class Interp:
         if not labelled:
             raise SkipOp()
         k = labelled[seed % len(labelled)]
+        self._label_counter = getattr(self, '_label_counter', 0) + 1  # a new label must not exist on another leg (documented ValueError)
         if m == 1:
             self.mark_inplace(a)
-            a.arr.ireplace_label(a.labels[k], 'R%d' % self.counter)
+            a.arr.ireplace_label(a.labels[k], 'R%d' % self._label_counter)
             a.labels = list(a.labels)
-            a.labels[k] = 'R%d' % self.counter
+            a.labels[k] = 'R%d' % self._label_counter
             return [a]
         if m == 2:
-            res = a.arr.replace_label(a.labels[k], 'Q%d' % self.counter)
+            res = a.arr.replace_label(a.labels[k], 'Q%d' % self._label_counter)
             lab = list(a.labels)
-            lab[k] = 'Q%d' % self.counter
+            lab[k] = 'Q%d' % self._label_counter
             ent = Ent(res, a.dense, lab, a.qtotal, a.legq, a.legc, a.exact, self.new_name())
             ent.multi = a.multi
             self.alias(a, ent)
